@@ -7,6 +7,12 @@ package main
 //	    A  <ty> <vid>                 f.Map(value of concrete type ty, id vid) on the Flame   (set-up)   -> ok
 //	    AT <ity> <cty> <vid>          f.MapTo(value of cty, (*ity)(nil)) on the Flame        (set-up)   -> ok
 //	    R  <name hex> <route hex>     f.Any(route, handler).Name(name)                        (set-up)   -> ok | err
+//	    B  <path hex> p | s - | s <code>:<n>   f.Before(h) on the Flame (set-up), hooks in line order; h looks at requests whose URL
+//	                                  path is exactly <path> (it returns false for every other request): `p` returns false for
+//	                                  them too, `s -` returns true having written nothing, `s code:n` returns true after
+//	                                  WriteHeader(code) and Write(n bytes) on the CLIENT's writer                           -> ok
+//	                                  A request some hook answers never gets a context: none of its operations is performed
+//	                                  (`not-run`), its E line shows what the hook sent (`end 0 0 0 <events>`).
 //	    Q  <rid> <route idx> <head 0|1> <path hex> <split> <k=v,…|->   declare request rid: the route it hits, its path,
 //	                                  how many of its operations its MIDDLEWARE performs (the rest: the route's handler),
 //	                                  the bind parameters the router will hand it (by construction of the path)      -> ok
@@ -37,11 +43,13 @@ package main
 
 import (
 	"fmt"
+	"hash/fnv"
 	"io"
 	"math/rand"
 	"net/http"
 	"net/http/httptest"
 	"os"
+	"regexp"
 	"runtime"
 	"sort"
 	"strconv"
@@ -205,6 +213,12 @@ func execConcReq(args []string, lines [][]string) []string {
 	var appMaps []appMap
 	type routeDef struct{ name, text string }
 	var routes []routeDef
+	type hookDef struct {
+		path    string
+		stop    bool
+		code, n int // code < 0: the hook writes nothing
+	}
+	var hooks []hookDef
 	reqs := map[int]*crReq{}
 	var order []int    // rids in declaration order
 	var schedule []int // rid of every O line, in line order
@@ -219,6 +233,31 @@ func execConcReq(args []string, lines [][]string) []string {
 		case len(l) == 3 && l[0] == "R":
 			routes = append(routes, routeDef{unhx(l[1]), unhx(l[2])})
 			outs[i+1] = "ok" // set below to err if the registration panics
+		case len(l) >= 3 && l[0] == "B":
+			h := hookDef{path: unhx(l[1]), code: -1}
+			switch {
+			case len(l) == 3 && l[2] == "p":
+			case len(l) == 4 && l[2] == "s" && l[3] == "-":
+				h.stop = true
+			case len(l) == 4 && l[2] == "s":
+				p := strings.Split(l[3], ":")
+				if len(p) != 2 {
+					outs[i+1] = "bad-op"
+					continue
+				}
+				code, ok1 := natField(p[0])
+				n, ok2 := natField(p[1])
+				if !ok1 || !ok2 {
+					outs[i+1] = "bad-op"
+					continue
+				}
+				h.stop, h.code, h.n = true, code, n
+			default:
+				outs[i+1] = "bad-op"
+				continue
+			}
+			hooks = append(hooks, h)
+			outs[i+1] = "ok"
 		case len(l) == 7 && l[0] == "Q":
 			q := &crReq{rid: atoi(l[1]), route: atoi(l[2]), head: l[3] == "1", path: unhx(l[4]), split: atoi(l[5]), endLine: -1}
 			reqs[q.rid] = q
@@ -251,6 +290,19 @@ func execConcReq(args []string, lines [][]string) []string {
 			} else {
 				f.MapTo(mkVal(m.cty, m.vid), ifacePtrs[m.ity])
 			}
+		}
+		for _, h := range hooks {
+			h := h
+			f.Before(func(w http.ResponseWriter, r *http.Request) bool {
+				if r.URL.Path != h.path || !h.stop {
+					return false
+				}
+				if h.code >= 0 {
+					w.WriteHeader(h.code)
+					_, _ = w.Write([]byte(strings.Repeat("x", h.n)))
+				}
+				return true
+			})
 		}
 		runs := map[int]*crRun{}
 		lockstep := new(bool)
@@ -442,6 +494,108 @@ type crRoute struct {
 	name, text string
 	// path and bind parameters for two words
 	mk func(a, b string) (string, map[string]string)
+	// the names of the route's bind parameters
+	binds []string
+}
+
+// ---- the family of regex segments with SEVERAL bind parameters: every bind has an expression of its own, some of
+// them with capturing groups of their own (the framework then has to map sub-matches to names by position); literals
+// between the binds; the segment last in the route (a regex leaf) or followed by further segments (a regex subtree).
+type rxExpr struct {
+	expr string
+	vals []string // strings the expression accepts in full; none contains a separator
+}
+
+var rxPlain = []rxExpr{
+	{`[0-9]+`, []string{"7", "2024", "11", "305"}},
+	{`[a-z]+`, []string{"news", "misc", "blog", "q"}},
+}
+
+var rxGrouped = []rxExpr{
+	{`(x|y)z`, []string{"xz", "yz"}},
+	{`(a|b)(c|d)`, []string{"ac", "bd", "ad"}},
+	{`k(l)?`, []string{"k", "kl"}},
+	{`((u|v)w)+`, []string{"uw", "vwuw", "vw"}},
+}
+
+// how many binds the segment has, which of them is the FIRST whose expression has groups of its own (-1: none; later
+// ones may have groups too), and whether the segment is the last of the route
+type rxShape struct {
+	nb, gpos int
+	final    bool
+}
+
+func rxShapes() []rxShape {
+	var out []rxShape
+	for nb := 1; nb <= 4; nb++ {
+		for g := -1; g < nb; g++ {
+			out = append(out, rxShape{nb, g, false}, rxShape{nb, g, true})
+		}
+	}
+	return out
+}
+
+func crRegexRoute(r *rand.Rand, k int, sh rxShape) crRoute {
+	names := []string{"a", "b", "c", "d"}[:sh.nb]
+	exprs := make([]rxExpr, sh.nb)
+	seps := make([]string, sh.nb) // seps[0]: a literal in front of the first bind
+	for i := range exprs {
+		switch {
+		case i == sh.gpos, i > sh.gpos && sh.gpos >= 0 && r.Intn(4) == 0:
+			exprs[i] = rxGrouped[r.Intn(len(rxGrouped))]
+		default:
+			exprs[i] = rxPlain[r.Intn(len(rxPlain))]
+		}
+		seps[i] = []string{"-", ".", "_"}[r.Intn(3)]
+	}
+	seps[0] = []string{"", "", "v"}[r.Intn(3)]
+	seg, pat := "", "^"
+	for i := range exprs {
+		seg += seps[i] + "{" + names[i] + ": /" + exprs[i].expr + "/}"
+		pat += regexp.QuoteMeta(seps[i]) + "(" + exprs[i].expr + ")"
+	}
+	re := regexp.MustCompile(pat + "$")
+	tail := 0 // final
+	if !sh.final {
+		tail = 1 + r.Intn(3)
+	}
+	text := fmt.Sprintf("/x%d/%s%s", k, seg, []string{"", "/show", "/{t}", "/{t: /[a-z]+/}"}[tail])
+	binds := append([]string{}, names...)
+	if tail >= 2 {
+		binds = append(binds, "t")
+	}
+	return crRoute{text: text, binds: binds, mk: func(a, b string) (string, map[string]string) {
+		h := fnv.New32a()
+		_, _ = h.Write([]byte(a + "|" + b))
+		x := h.Sum32()
+		ps := map[string]string{}
+		inst := ""
+		for i := range exprs {
+			v := exprs[i].vals[int(x>>(4*uint(i)))%len(exprs[i].vals)]
+			ps[names[i]] = v
+			inst += seps[i] + v
+		}
+		// the values are the generator's claim about what the router hands over: Go's regexp has the last word
+		m, gi := re.FindStringSubmatch(inst), 1
+		for i := range exprs {
+			if m == nil || m[gi] != ps[names[i]] {
+				fatal("concreq generator: " + text + " does not split " + inst + " the way the generator thinks")
+			}
+			gi += 1 + regexp.MustCompile(exprs[i].expr).NumSubexp()
+		}
+		path := fmt.Sprintf("/x%d/%s", k, inst)
+		switch tail {
+		case 1:
+			path += "/show"
+		case 2:
+			ps["t"] = b
+			path += "/" + b
+		case 3:
+			ps["t"] = rxPlain[1].vals[int(x>>20)%len(rxPlain[1].vals)]
+			path += "/" + ps["t"]
+		}
+		return path, ps
+	}}
 }
 
 func crRoutes(r *rand.Rand) []crRoute {
@@ -451,17 +605,17 @@ func crRoutes(r *rand.Rand) []crRoute {
 			return crRoute{text: t, mk: func(a, b string) (string, map[string]string) { return t, map[string]string{} }}
 		},
 		func(k int) crRoute {
-			return crRoute{text: fmt.Sprintf("/p%d/{a}", k), mk: func(a, b string) (string, map[string]string) {
+			return crRoute{text: fmt.Sprintf("/p%d/{a}", k), binds: []string{"a"}, mk: func(a, b string) (string, map[string]string) {
 				return fmt.Sprintf("/p%d/%s", k, a), map[string]string{"a": a}
 			}}
 		},
 		func(k int) crRoute {
-			return crRoute{text: fmt.Sprintf("/q%d/{a}/{b}", k), mk: func(a, b string) (string, map[string]string) {
+			return crRoute{text: fmt.Sprintf("/q%d/{a}/{b}", k), binds: []string{"a", "b"}, mk: func(a, b string) (string, map[string]string) {
 				return fmt.Sprintf("/q%d/%s/%s", k, a, b), map[string]string{"a": a, "b": b}
 			}}
 		},
 		func(k int) crRoute {
-			return crRoute{text: fmt.Sprintf("/o%d/{a}/?{b}", k), mk: func(a, b string) (string, map[string]string) {
+			return crRoute{text: fmt.Sprintf("/o%d/{a}/?{b}", k), binds: []string{"a", "b"}, mk: func(a, b string) (string, map[string]string) {
 				if len(b)%2 == 0 {
 					return fmt.Sprintf("/o%d/%s", k, a), map[string]string{"a": a}
 				}
@@ -469,14 +623,22 @@ func crRoutes(r *rand.Rand) []crRoute {
 			}}
 		},
 		func(k int) crRoute {
-			return crRoute{text: fmt.Sprintf("/g%d/{a: /[a-z0-9]+/}/x", k), mk: func(a, b string) (string, map[string]string) {
+			return crRoute{text: fmt.Sprintf("/g%d/{a: /[a-z0-9]+/}/x", k), binds: []string{"a"}, mk: func(a, b string) (string, map[string]string) {
 				return fmt.Sprintf("/g%d/%s/x", k, a), map[string]string{"a": a}
 			}}
 		},
 		func(k int) crRoute {
-			return crRoute{text: fmt.Sprintf("/m%d/{b: **}", k), mk: func(a, b string) (string, map[string]string) {
+			return crRoute{text: fmt.Sprintf("/m%d/{b: **}", k), binds: []string{"b"}, mk: func(a, b string) (string, map[string]string) {
 				return fmt.Sprintf("/m%d/%s/%s", k, a, b), map[string]string{"b": a + "/" + b}
 			}}
+		},
+		func(k int) crRoute { // a regex segment with several binds, of any shape
+			shapes := rxShapes()
+			return crRegexRoute(r, k, shapes[r.Intn(len(shapes))])
+		},
+		func(k int) crRoute {
+			shapes := rxShapes()
+			return crRegexRoute(r, k, shapes[r.Intn(len(shapes))])
 		},
 	}
 	n := 2 + r.Intn(3)
@@ -545,7 +707,7 @@ func crOp(r *rand.Rand, rid, k int, hot []int, routes []crRoute, vid *int) strin
 	case c < 14:
 		return []string{"st", "sz"}[r.Intn(2)]
 	case c < 16:
-		return "p " + hx([]string{"a", "b", "tenant", "nope"}[r.Intn(4)])
+		return "p " + hx([]string{"a", "b", "tenant", "nope", "c", "d", "t"}[r.Intn(7)])
 	case c < 17:
 		return fmt.Sprintf("sp %s %s", hx([]string{"a", "b", "tenant"}[r.Intn(3)]), hx(fmt.Sprintf("%s-%d", words[r.Intn(len(words))], rid)))
 	case c < 18:
@@ -570,7 +732,25 @@ func crIsTrigger(op string) bool {
 	return strings.HasPrefix(op, "wh ") || strings.HasPrefix(op, "w ") || op == "fl"
 }
 
-func crEmitSession(r *rand.Rand, emit Emit, appMaps []string, routes []crRoute, progs [][]string, heads []bool, routeOf []int, sched []int) {
+// a Before hook of a session: it looks at the requests whose path is that of request `rid` (rid < 0: at a path no
+// request of the session has); act as on the B line
+type crHook struct {
+	rid int
+	act string
+}
+
+// what a session looks like beyond its programs: Before hooks of the Flame, and (optionally) for every request how many
+// of its operations its middleware performs (nil: drawn)
+type crShape struct {
+	hooks  []crHook
+	splits []int
+}
+
+func crEmitSession(r *rand.Rand, emit Emit, appMaps []string, routes []crRoute, progs [][]string, heads []bool, routeOf []int, sched []int, shape ...crShape) {
+	var sh crShape
+	if len(shape) > 0 {
+		sh = shape[0]
+	}
 	emit("NEW concreq %s", universeArgs(nInjTypes))
 	for _, a := range appMaps {
 		emit("%s", a)
@@ -579,9 +759,20 @@ func crEmitSession(r *rand.Rand, emit Emit, appMaps []string, routes []crRoute, 
 		emit("R %s %s", hx(rt.name), hx(rt.text))
 	}
 	words := []string{"alice", "bob", "x1", "42", "zed", "q"}
-	for rid, prog := range progs {
+	paths := make([]string, len(progs))
+	params := make([]map[string]string, len(progs))
+	for rid := range progs {
 		rt := routes[routeOf[rid]]
-		path, ps := rt.mk(words[r.Intn(len(words))]+strconv.Itoa(rid), words[r.Intn(len(words))])
+		paths[rid], params[rid] = rt.mk(words[r.Intn(len(words))]+strconv.Itoa(rid), words[r.Intn(len(words))])
+	}
+	for _, h := range sh.hooks {
+		path := "/healthz"
+		if h.rid >= 0 && h.rid < len(paths) {
+			path = paths[h.rid]
+		}
+		emit("B %s %s", hx(path), h.act)
+	}
+	for rid, prog := range progs {
 		// the middleware performs a prefix that contains no operation that sends the status (the chain stops once written)
 		firstTrig := len(prog)
 		for k, op := range prog {
@@ -591,11 +782,14 @@ func crEmitSession(r *rand.Rand, emit Emit, appMaps []string, routes []crRoute, 
 			}
 		}
 		split := r.Intn(firstTrig + 1)
+		if sh.splits != nil && sh.splits[rid] <= firstTrig {
+			split = sh.splits[rid]
+		}
 		h := 0
 		if heads[rid] {
 			h = 1
 		}
-		emit("Q %d %d %d %s %d %s", rid, routeOf[rid], h, hx(path), split, crParamsField(ps))
+		emit("Q %d %d %d %s %d %s", rid, routeOf[rid], h, hx(paths[rid]), split, crParamsField(params[rid]))
 	}
 	next := make([]int, len(progs))
 	for _, rid := range sched {
@@ -605,6 +799,37 @@ func crEmitSession(r *rand.Rand, emit Emit, appMaps []string, routes []crRoute, 
 	for rid := range progs {
 		emit("E %d", rid)
 	}
+}
+
+// all interleavings of sequences of the given lengths (as lists of sequence numbers)
+func crInterleavingsN(lens []int) [][]int {
+	done := true
+	for _, n := range lens {
+		if n > 0 {
+			done = false
+		}
+	}
+	if done {
+		return [][]int{nil}
+	}
+	var out [][]int
+	for i, n := range lens {
+		if n > 0 {
+			rest := append([]int{}, lens...)
+			rest[i]--
+			for _, t := range crInterleavingsN(rest) {
+				out = append(out, append([]int{i}, t...))
+			}
+		}
+	}
+	return out
+}
+
+func crHookAct(r *rand.Rand, stop bool) string {
+	if !stop {
+		return "p"
+	}
+	return []string{"s -", "s 200:2", "s 204:0", "s 403:5"}[r.Intn(4)]
 }
 
 // all interleavings of two sequences of lengths a and b (as lists of 0/1)
@@ -676,6 +901,95 @@ func genConcReq(r *rand.Rand, tier string, emit Emit) {
 			}
 		}
 	}
+	// ---- every bind parameter of a route read by every request, while / after other requests went through the same
+	// nodes of the route tree: one session (thorough: six) for every shape of the family of regex segments with several
+	// binds, and as many on routes of the other kinds
+	perShape := 1
+	if tier == "thorough" {
+		perShape = 6
+	}
+	for _, shp := range rxShapes() {
+		for rep := 0; rep < 2*perShape; rep++ {
+			var routes []crRoute
+			if rep%2 == 0 {
+				routes = []crRoute{crRegexRoute(r, 0, shp)}
+				if r.Intn(3) == 0 {
+					routes = append(routes, crRegexRoute(r, 1, shp))
+				}
+			} else {
+				routes = crRoutes(r)
+			}
+			for k := range routes {
+				routes[k].name = fmt.Sprintf("n%d", k)
+			}
+			nreq := 2 + r.Intn(3)
+			progs := make([][]string, nreq)
+			routeOf := make([]int, nreq)
+			var sched []int
+			for rid := range progs {
+				routeOf[rid] = r.Intn(len(routes))
+				if rid == 1 {
+					routeOf[rid] = routeOf[0] // at least two requests on one route
+				}
+				for _, b := range routes[routeOf[rid]].binds {
+					progs[rid] = append(progs[rid], "p "+hx(b))
+				}
+				progs[rid] = append(progs[rid], "rs")
+				r.Shuffle(len(progs[rid]), func(i, j int) { progs[rid][i], progs[rid][j] = progs[rid][j], progs[rid][i] })
+				for range progs[rid] {
+					sched = append(sched, rid)
+				}
+			}
+			r.Shuffle(len(sched), func(i, j int) { sched[i], sched[j] = sched[j], sched[i] })
+			crEmitSession(r, emit, nil, routes, progs, make([]bool, nreq), routeOf, sched)
+		}
+	}
+	// ---- histories with requests that a Before hook of the Flame answers (they never reach the router), small scope:
+	// three requests on one route, one of them answered by a hook (declared first, second or last), the other two with
+	// two operations each, one / both / none of them performed by the middleware; every interleaving of the two
+	{
+		gamma := func(rid int) []string {
+			return []string{"p " + hx("a"), "st", fmt.Sprintf("m %d %d", tyStr, 1000+rid), fmt.Sprintf("v %d", tyStr), "w 2", "rs"}
+		}
+		inter3 := crInterleavingsN([]int{2, 2})
+		for hooked := 0; hooked < 3; hooked++ {
+			var others []int
+			for rid := 0; rid < 3; rid++ {
+				if rid != hooked {
+					others = append(others, rid)
+				}
+			}
+			for s1 := 0; s1 <= 2; s1++ {
+				for s2 := 0; s2 <= 2; s2++ {
+					for _, il := range inter3 {
+						progs := make([][]string, 3)
+						splits := make([]int, 3)
+						for rid := range progs {
+							g := gamma(rid)
+							progs[rid] = []string{g[r.Intn(4)], g[r.Intn(len(g))]}
+						}
+						splits[others[0]], splits[others[1]] = s1, s2
+						var sched []int
+						for _, w := range il {
+							sched = append(sched, others[w])
+						}
+						// the operations of the answered request are lines of the session too (never performed)
+						at := r.Intn(len(sched) + 1)
+						sched = append(sched[:at:at], append([]int{hooked, hooked}, sched[at:]...)...)
+						hooks := []crHook{{hooked, crHookAct(r, true)}}
+						if r.Intn(3) == 0 {
+							hooks = append([]crHook{{others[r.Intn(2)], "p"}}, hooks...)
+						}
+						if r.Intn(4) == 0 {
+							hooks = append(hooks, crHook{-1, crHookAct(r, true)})
+						}
+						crEmitSession(r, emit, []string{fmt.Sprintf("A %d 77", tyStr)}, rt, progs, []bool{false, false, r.Intn(4) == 0}, []int{0, 0, 0}, sched,
+							crShape{hooks: hooks, splits: splits})
+					}
+				}
+			}
+		}
+	}
 	// ---- random sessions
 	n := 120
 	if tier == "thorough" {
@@ -723,6 +1037,18 @@ func genConcReq(r *rand.Rand, tier string, emit Emit) {
 			routeOf[rid] = r.Intn(len(routes))
 		}
 		r.Shuffle(len(sched), func(i, j int) { sched[i], sched[j] = sched[j], sched[i] })
-		crEmitSession(r, emit, appMaps, routes, progs, heads, routeOf, sched)
+		// every other session: Before hooks on the Flame — some answer one of the session's requests (and every request
+		// with the same path), some look at a request and pass it on, some wait for a path nobody asks for
+		var hooks []crHook
+		if r.Intn(2) == 0 {
+			for k := 1 + r.Intn(3); k > 0; k-- {
+				h := crHook{rid: r.Intn(nreq), act: crHookAct(r, r.Intn(3) > 0)}
+				if r.Intn(4) == 0 {
+					h.rid = -1
+				}
+				hooks = append(hooks, h)
+			}
+		}
+		crEmitSession(r, emit, appMaps, routes, progs, heads, routeOf, sched, crShape{hooks: hooks})
 	}
 }
